@@ -254,6 +254,81 @@ func (g *Graph) Calling(m Matcher) NodePred {
 	}
 }
 
+// CallingDeep is Calling plus wrapper summaries: a call of a same-module helper
+// all of whose success exits pass a call of class m (depth <= 2) counts as a
+// call of class m. Meant for must-pass / precede gates, so that extracting a few
+// statements into a helper does not change the verdict.
+func (g *Graph) CallingDeep(m Matcher) NodePred {
+	cache := map[*Node]int8{}
+	// wrapper summaries: a same-module helper all of whose success exits pass a
+	// call of class m counts as a call of class m (bounded depth), so that
+	// extracting a few statements into a helper does not change a verdict.
+	wraps := map[*types.Func]int8{}
+	var mustCall func(fn *types.Func, depth int) bool
+	mustCall = func(fn *types.Func, depth int) bool {
+		if fn == nil || depth <= 0 {
+			return false
+		}
+		if v, ok := wraps[fn]; ok {
+			return v == 1
+		}
+		wraps[fn] = 2 // cycle guard
+		callee := g.Prog.FuncOf(fn)
+		if callee == nil || callee.Decl.Body == nil || callee == g.Fn {
+			return false
+		}
+		cg := callee.Graph()
+		inner := func(x *Node) bool {
+			if x.N == nil {
+				return false
+			}
+			hit := false
+			Walk(x.N, WalkOpts{}, func(y ast.Node) bool {
+				if c, ok := y.(*ast.CallExpr); ok {
+					if m(cg.Info, c) || mustCall(Callee(cg.Info, c), depth-1) {
+						hit = true
+					}
+				}
+				return true
+			})
+			return hit
+		}
+		if len(cg.Select(inner)) == 0 {
+			return false
+		}
+		ok := len(cg.MustPass(inner, nil)) == 0 && len(cg.SuccessExits()) > 0
+		if ok {
+			wraps[fn] = 1
+		}
+		return ok
+	}
+	return func(n *Node) bool {
+		if n.N == nil {
+			return false
+		}
+		if v, ok := cache[n]; ok {
+			return v == 1
+		}
+		r := len(CallsIn(g.Info, n.N, m, WalkOpts{})) > 0
+		if !r {
+			Walk(n.N, WalkOpts{}, func(y ast.Node) bool {
+				if c, ok := y.(*ast.CallExpr); ok && !r {
+					if fn := Callee(g.Info, c); fn != nil && fn.Pkg() != nil && strings.HasPrefix(fn.Pkg().Path(), Mod) && mustCall(fn, 2) {
+						r = true
+					}
+				}
+				return true
+			})
+		}
+		if r {
+			cache[n] = 1
+		} else {
+			cache[n] = 2
+		}
+		return r
+	}
+}
+
 // Deferring selects defer statements whose deferred call (or the body of a
 // deferred function literal) contains a call matched by m.
 func (g *Graph) Deferring(m Matcher) NodePred {
